@@ -8,6 +8,12 @@
 package verif
 
 import (
+	"context"
+
+	corestore "cosmossdk.io/core/store"
+	codectypes "github.com/cosmos/cosmos-sdk/codec/types"
+	sdk "github.com/cosmos/cosmos-sdk/types"
+
 	"encoding/hex"
 	"encoding/json"
 	"fmt"
@@ -220,3 +226,54 @@ func Sha256(b []byte) []byte { return sha256Native(b) }
 
 // DecU64 formats n as decimal (the engine's dec UF).
 func DecU64(n uint64) string { return strconv.FormatUint(n, 10) }
+
+// ---- world: context, stores, codec (engine intrinsics; native versions live in world_native.go) ----
+
+// StGet reads key from the named symbolic store as seen through ctx (absent = empty).
+func StGet(ctx context.Context, store string, key []byte) []byte { return nativeStGet(ctx, store, key) }
+func StHas(ctx context.Context, store string, key []byte) bool {
+	return len(nativeStGet(ctx, store, key)) != 0
+}
+func StSet(ctx context.Context, store string, key, val []byte) { nativeStSet(ctx, store, key, val) }
+func StDel(ctx context.Context, store string, key []byte)      { nativeStSet(ctx, store, key, nil) }
+
+// StSnapshot records the current contents of a store; StEqual / StEqualExcept compare against it.
+func StSnapshot(ctx context.Context, store string) int { return nativeSnapshot(ctx, store) }
+func StEqual(ctx context.Context, store string, snap int) bool {
+	return nativeEqualExcept(ctx, store, snap, nil)
+}
+func StEqualExcept(ctx context.Context, store string, snap int, keys ...[]byte) bool {
+	return nativeEqualExcept(ctx, store, snap, keys)
+}
+func StSnapGet(snap int, key []byte) []byte { return nativeSnapGet(snap, key) }
+
+// Decode fills *ptr with arbitrary (uninterpreted) field values determined by bz; Encode is its inverse.
+func Decode(bz []byte, ptr any)                    { nativeDecode(bz, ptr) }
+func Encode(ptr any) []byte                        { return nativeEncode(ptr) }
+func DecodeIface(bz []byte, ptrToIface any)        { nativeDecodeIface(bz, ptrToIface) }
+func EncodeIface(v any, ifaceName string) []byte   { return nativeEncodeIface(v) }
+func RegisterIface(ifaceName string, concrete any) {}
+func RepeatedBound(fieldPath string, lo, hi int)   {}
+
+// ghost call log (stubs record what the real code asked them)
+func LogCall(name string, args ...any)           { nativeLogCall(name, args) }
+func CallCount(name string) int                  { return nativeCallCount(name) }
+func CallArgBytes(name string, k, i int) []byte  { return nativeCallArg(name, k, i).([]byte) }
+func CallArgString(name string, k, i int) string { return nativeCallArg(name, k, i).(string) }
+func CallArgUint64(name string, k, i int) uint64 { return nativeCallArg(name, k, i).(uint64) }
+
+// DecodeOK: whether bz is a valid encoding for *ptr's type (true unless DecodeMayFail(true) was called).
+func DecodeOK(bz []byte, ptr any) bool             { return true }
+func DecodeIfaceOK(bz []byte, ptrToIface any) bool { return true }
+func DecodeMayFail(on bool)                        {}
+
+// UnpackAny models codectypes.AnyUnpacker for Any values built by the harness.
+func UnpackAny(any *codectypes.Any, iface any) error { return nativeUnpackAny(any, iface) }
+
+// StIterator iterates the small-scope ordered view of a store (see DESIGN 2.4).
+func StIterator(ctx context.Context, store string, start, end []byte, reverse bool) corestore.Iterator {
+	return nativeIterator(ctx, store, start, end, reverse)
+}
+
+// NewCtx returns a context with symbolic block height, time and chain id over fresh symbolic stores.
+func NewCtx() sdk.Context { return nativeNewCtx() }
